@@ -9,6 +9,7 @@ import (
 	"os/exec"
 	"path/filepath"
 	"strings"
+	"sync"
 	"time"
 
 	"verifharness/fw"
@@ -108,6 +109,66 @@ var (
 	litsExtra      = []string{"x", "test", "y", "X", "dev"}
 )
 
+// paddedVersionLits: re-spellings of the environment's version values and of their
+// neighbours with extra or fewer trailing zero release segments (3.9 / 3.9.0 / 3.9.0.0,
+// 3.9.6.0, 3.9.6.0.0, 3 / 3.0 / 3.0.0), each plain and with .postN, .devN, aN, rcN and
+// the wildcard: the zero-padding of release segments in every branch of the PEP 440
+// comparison rules (post-release exclusion for >, pre-release exclusion for <, prefix
+// matching for == V.* and ~=), where the literal has more or fewer release segments
+// than the value it is compared with.
+var paddedVersionLits = func() func() []string {
+	var once sync.Once
+	var out []string
+	return func() []string {
+		once.Do(func() {
+			seen := map[string]bool{}
+			var cores [][]int
+			addCore := func(rel []int) {
+				for len(rel) > 1 && rel[len(rel)-1] == 0 {
+					rel = rel[:len(rel)-1]
+				}
+				k := fmt.Sprint(rel)
+				if !seen[k] {
+					seen[k] = true
+					cores = append(cores, append([]int{}, rel...))
+				}
+			}
+			env := refEnv()
+			for _, v := range platformVars {
+				pv, ok := refParseVersion(env[v])
+				if !ok || pv.pre != nil || pv.post != nil || pv.dev != nil || pv.hasLoc || pv.epoch != 0 {
+					continue
+				}
+				rel := pv.release
+				addCore(rel)
+				addCore(rel[:1])
+				last := len(rel) - 1
+				up := append([]int{}, rel...)
+				up[last]++
+				addCore(up)
+				if rel[last] > 0 {
+					down := append([]int{}, rel...)
+					down[last]--
+					addCore(down)
+				}
+			}
+			for _, core := range cores {
+				var parts []string
+				for _, n := range core {
+					parts = append(parts, fmt.Sprint(n))
+				}
+				base := strings.Join(parts, ".")
+				for _, pad := range []string{"", ".0", ".0.0"} {
+					for _, suf := range []string{"", ".post0", ".post1", ".dev1", "a1", "rc1", ".*"} {
+						out = append(out, base+pad+suf)
+					}
+				}
+			}
+		})
+		return out
+	}
+}()
+
 func genLeaf(r *rand.Rand) *M {
 	m := &M{K: "cmp", W0: ws(r), W1: ws(r), W2: ws(r), Q: pick(r, "'", `"`)}
 	if r.Intn(8) == 0 {
@@ -125,6 +186,9 @@ func genLeaf(r *rand.Rand) *M {
 			m.Lit = pick(r, litsVersion...)
 			if r.Intn(4) == 0 {
 				m.Lit = pick(r, litsAltVersion...)
+			}
+			if r.Intn(5) == 0 { // zero-padded re-spellings of the environment's versions
+				m.Lit = pick(r, paddedVersionLits()...)
 			}
 		case "platform_release":
 			m.Lit = pick(r, litsRelease...)
@@ -443,6 +507,50 @@ func run(c *fw.Ctx) {
 					c.Count("leaf-exhaustive:" + strings.Fields(res)[0])
 					if len(markerClasses(m, env, extras)) == 0 {
 						c.Count("leaf-exhaustive:inside-partial-hypotheses")
+					}
+				}
+			}
+		}
+	}
+	// the same for the zero-padded re-spellings, on the version-valued variables; a part of them
+	// also through the resolver, and all of them to the packaging validation
+	inAll := map[string]bool{}
+	for _, l := range allLits {
+		inAll[l] = true
+	}
+	nPyPadded := c.N(9000, 20000)
+	for _, v := range platformVars {
+		if _, isV := refParseVersion(env[v]); !isV {
+			continue
+		}
+		for _, op := range allOps {
+			for _, lit := range paddedVersionLits() {
+				if inAll[lit] {
+					continue
+				}
+				for _, flip := range []bool{false, true} {
+					m := &M{K: "cmp", Var: v, Op: op, Lit: lit, Q: "'", W1: " ", W2: " ", Flip: flip}
+					if op == "not in" {
+						m.W3 = " "
+					}
+					raw := m.render()
+					line := markerLine("marker", raw, nil, m)
+					i, res := c.Op(line)
+					checkMarker(i, line, res)
+					c.Count("leaf-padded:" + strings.Fields(res)[0])
+					if len(markerClasses(m, env, nil)) == 0 {
+						c.Count("leaf-padded:inside-partial-hypotheses")
+						c.Nontrivial("m:" + raw + "|")
+					}
+					if r.Intn(8) == 0 {
+						j, _ := c.Op(markerLine("resolve", raw, nil, nil))
+						c.Check("resolve-eq-marker", i, j)
+						c.Count("resolve")
+					}
+					if nPyPadded > 0 && op != "in" && op != "not in" {
+						nPyPadded--
+						want := map[tri]string{triFalse: "F", triTrue: "T", triErr: "ERR"}[refEval(m, env, nil)]
+						py = append(py, pyQuery{quirk: markerQuirk(m), q: map[string]any{"k": "marker", "s": raw, "extras": []string{}, "env": env}, want: map[string]any{"v": want}, desc: fmt.Sprintf("marker %q", raw)})
 					}
 				}
 			}
